@@ -64,6 +64,16 @@ def run_scenario(ck, scen, tag):
     build_ok = scen.get('build_ok')
     if build_ok is None:
         build_ok = [rng.random() < 0.85 for _ in probe.builds]
+    if scen.get('hostile') and not scen.get('hostile_applied'):
+        # criteria that RebenchLog's [^:]{1,30} admits and that contain a TSV separator
+        for per in outputs:
+            for o in per:
+                if o is None:
+                    continue
+                for ms in o:
+                    if rng.random() < 0.5:
+                        ms.insert(0, (rng.choice(scen['hostile']), rng.choice(dp.UNITS), dp.gen_value(rng)))
+        scen['hostile_applied'] = True
     scen['outputs'], scen['build_ok'] = outputs, build_ok
     fail_style = {(i, inv + 1): rng.choice(['rc', 'garbage']) for i, per in enumerate(outputs)
                   for inv, o in enumerate(per) if o is None}
@@ -133,7 +143,7 @@ def judge(ck, inp, probe, outputs, build_ok, observed, ans):
                                           profile_file=fi in profile_files)
             impl_files.append({'prefix_kept': kept, 'appended': lines})
         impl = {'end': impl_end, 'trace': impl_trace, 'files': impl_files}
-        model = {'end': ms['end'], 'trace': ms['trace'], 'files': ms['files']}
+        model = {'end': ms['end'], 'trace': ms['trace'], 'files': [{'prefix_kept': f['prefix_kept'], 'appended': f['appended']} for f in ms['files']]}
         ck.count('end:' + impl_end)
         if impl != model:
             what = [k for k in impl if impl[k] != model[k]]
